@@ -3,7 +3,7 @@ import os
 import vlib
 
 SPECDIR = os.path.join(vlib.SPEC, "conc")
-SRCS = ["src/String.cpp", "src/Variant.cpp", "src/Memory.cpp", "src/Debug.cpp"]
+SRCS = ["src/String.cpp", "src/Variant.cpp", "src/Memory.cpp", "src/Debug.cpp", "src/Document/Xml.cpp", "src/Error.cpp", "src/File.cpp", "src/Directory.cpp"]
 PROGS = {
     "a": [["wa", "aeqb", "ca"], ["beqa", "wb", "da"]],
     "b": [["aeqb", "wb"], ["wa", "beqa"], ["ca", "db"]],
@@ -12,9 +12,18 @@ PROGS = {
     "e": [["cb", "aeqa", "wa"], ["da", "beqa", "cb"]],
 }
 SCENARIOS = {"sa": ("string", "a"), "sb": ("string", "b"), "sd": ("string", "d"), "va": ("variant", "a"), "vb": ("variant", "b"),
-             "vd": ("variant", "d"), "pc": ("ptr", "c"), "pb": ("ptr", "b"), "se": ("string", "e"), "ve": ("variant", "e"), "pe": ("ptr", "e")}
-OPS = {"string": ["aeqb", "beqa", "aeqa", "wa", "wb", "ca", "cb", "da", "db"], "variant": ["aeqb", "beqa", "aeqa", "wa", "wb", "ca", "cb", "da", "db", "la", "lb", "oa", "ob", "la", "oa"],
-       "ptr": ["aeqb", "beqa", "aeqa", "ca", "cb", "sw", "sw", "da", "db"]}
+             "vd": ("variant", "d"), "pc": ("ptr", "c"), "pb": ("ptr", "b"), "se": ("string", "e"), "ve": ("variant", "e"), "pe": ("ptr", "e"),
+             # Variants sharing an Array / List / HashMap payload follow the same protocol as Variants sharing a string: the
+             # schedules of the variant graphs are replayed on them as well (third component: the configuration reused)
+             "ra": ("varr", "a", "va"), "lb": ("vlist", "b", "vb"), "md": ("vmap", "d", "vd"), "re": ("varr", "e", "ve"),
+             "xa": ("xtext", "a", "va"), "xb": ("xelem", "b", "vb"), "xd": ("xelem", "d", "vd"), "xe": ("xtext", "e", "ve")}
+TEXTOPS = ["ta", "tb", "za", "zb", "ua", "ub", "ga", "gb"]     # in-place modifications / mutable access of a possibly shared text payload
+CONTOPS = ["aeqb", "beqa", "aeqa", "wa", "wb", "ga", "gb", "ga", "gb", "ca", "cb", "da", "db"]
+OPS = {"string": ["aeqb", "beqa", "aeqa", "wa", "wb", "ca", "cb", "da", "db"] + TEXTOPS,
+       "variant": ["aeqb", "beqa", "aeqa", "wa", "wb", "ca", "cb", "da", "db", "la", "lb", "oa", "ob", "la", "oa"] + TEXTOPS,
+       "ptr": ["aeqb", "beqa", "aeqa", "ca", "cb", "sw", "sw", "da", "db"],
+       "varr": CONTOPS, "vlist": CONTOPS, "vmap": CONTOPS, "xelem": CONTOPS,
+       "xtext": ["aeqb", "beqa", "aeqa", "wa", "wb", "wa", "wb", "ca", "cb", "da", "db"]}
 
 
 def build():
@@ -66,7 +75,7 @@ def check_runs(ctx, binary, runs, tag):
 
 
 def rand_progs(rng):
-    kind = rng.choice(["string", "variant", "ptr"])
+    kind = rng.choice(["string", "variant", "ptr", "string", "variant", "ptr", "varr", "vlist", "vmap", "xtext", "xelem"])
     n = rng.randint(2, 4)
     return kind, [[rng.choice(OPS[kind]) for _ in range(rng.randint(1, 5))] for _ in range(n)]
 
@@ -94,9 +103,9 @@ def run(ctx):
     binary = build()
     apalache_inductive(ctx)
     for n in sorted(SCENARIOS):
-        kind, pk = SCENARIOS[n]
+        kind, pk = SCENARIOS[n][:2]
         dot = os.path.join(ctx.work, n + ".dot")
-        r = vlib.tlc(SPECDIR, "RefCountScenarios", "RefCountImpl_%s.cfg" % n, workers=4, timeout=600, dump=dot)
+        r = vlib.tlc(SPECDIR, "RefCountScenarios", "RefCountImpl_%s.cfg" % (SCENARIOS[n] + (n,))[2], workers=4, timeout=600, dump=dot)
         ctx.add_tlc("RefCountImpl_" + n, r)
         if not r.ok:
             continue
@@ -113,9 +122,9 @@ def run(ctx):
     check_runs(ctx, binary, runs, "random")
     ctx.assumptions.append("sequential consistency at the granularity of the atomic operations (weak-memory reorderings between two atomic accesses are not explored)")
     return vlib.finish(ctx, "model_checking",
-                       "TLC state graphs of the reference-count protocol (String / Variant copy-on-write, RefCount::Ptr) for 8 "
+                       "TLC state graphs of the reference-count protocol (String / Variant copy-on-write incl. Array / List / HashMap payloads, Xml::Variant text / element payloads, RefCount::Ptr) for 19 "
                        "multi-thread programs -> schedules replayed on the real classes through the cooperative scheduler with the "
-                       "Atomic hook + random programs of 2-4 threads under random schedules; handle values after every operation "
+                       "Atomic hook + random programs of 2-4 threads (assignment, self-assignment, append, trim / shrink / upper-case in place, mutable accessors, clear, swap, destruction) under random schedules; handle values after every operation "
                        "and pointee destruction validated by TLC against RefHandles; ASan and LeakSanitizer decide release-once / "
                        "no-use-after-release; distinct = distinct (program, schedule) pairs")
 
